@@ -11,7 +11,9 @@ import (
 	"io"
 	"os"
 	"path/filepath"
+	"runtime"
 	"strings"
+	"sync/atomic"
 	"time"
 
 	"github.com/drand/drand/v2/common"
@@ -38,6 +40,79 @@ type persistCtl struct {
 	count int
 	fired bool
 	kinds []string
+	// write transactions the database layer begins inside the operation in progress
+	opGoid int64
+	opTx   int
+	opKind string
+	multi  []int // operations that were made of more than one write transaction
+}
+
+// inOp is the node whose persistence operation is executing (crash target only).
+var inOp atomic.Pointer[dNode]
+
+func curGoid() int64 {
+	var buf [64]byte
+	b := buf[:runtime.Stack(buf[:], false)]
+	// "goroutine 123 ["
+	b = b[len("goroutine "):]
+	var id int64
+	for _, c := range b {
+		if c < '0' || c > '9' {
+			break
+		}
+		id = id*10 + int64(c-'0')
+	}
+	return id
+}
+
+func inBeginRWTx() bool {
+	var pcs [12]uintptr
+	k := runtime.Callers(3, pcs[:])
+	fr := runtime.CallersFrames(pcs[:k])
+	for {
+		f, more := fr.Next()
+		if strings.HasSuffix(f.Function, "bbolt.(*DB).beginRWTx") {
+			return true
+		}
+		if !more {
+			return false
+		}
+	}
+}
+
+// firstLockOfTx: beginRWTx takes the writer lock first and the meta lock second; the site of
+// the first acquisition ever seen inside it is the writer lock.
+func (e *daemonEngine) firstLockOfTx(site string) bool {
+	if e.rwSite == "" {
+		e.rwSite = site
+	}
+	return e.rwSite == site
+}
+
+// boltHook is called at every lock acquisition inside the database layer. Inside a
+// persistence operation of the crash target it counts the write transactions the operation
+// is made of and, in mode "mid", kills the node before the second one.
+func (e *daemonEngine) boltHook(next func(string)) func(string) {
+	return func(site string) {
+		if n := inOp.Load(); n != nil && n.pc.opGoid == curGoid() && inBeginRWTx() && e.firstLockOfTx(site) {
+			pc := &n.pc
+			pc.opTx++
+			cp := e.sc.Crash
+			if cp != nil && cp.Mode == "mid" && cp.At == pc.count && pc.opTx == 2 && !pc.fired {
+				pc.fired = true
+				inOp.Store(nil)
+				e.crashKind = "mid " + pc.opKind
+				e.rec.Count("fault:crash_between_transactions", 1)
+				e.snapshot(n, "", 0)
+				pc.mu.Unlock()
+				e.crashNode(n)
+				select {}
+			}
+		}
+		if next != nil {
+			next(site)
+		}
+	}
 }
 
 func (e *daemonEngine) nodeOfFolder(folder string) *dNode {
@@ -74,8 +149,19 @@ func (n *dNode) persist(kind, file string, do func() error) error {
 		e.crashNode(n)
 		select {}
 	}
+	track := cp != nil && cp.Node == n.idx
+	if track {
+		pc.opGoid, pc.opTx, pc.opKind = curGoid(), 0, kind
+		inOp.Store(n)
+	}
 	err := do()
-	if hit {
+	if track {
+		inOp.Store(nil)
+		if pc.opTx > 1 {
+			pc.multi = append(pc.multi, k)
+		}
+	}
+	if hit && cp.Mode != "mid" {
 		pc.fired = true
 		e.crashKind = cp.Mode + " " + kind
 		if cp.Mode == "torn" && file != "" {
@@ -226,6 +312,11 @@ func (e *daemonEngine) checkRestart(n *dNode, startErr error) {
 						hex.EncodeToString(fin.FinalGroup.Hash())[:8], hex.EncodeToString(g.Hash())[:8])
 				}
 			}
+			if cur, cerr := ds.GetCurrent(id); cerr == nil && cur != nil && cur.State == dkg.Complete && cur.Epoch != fin.Epoch {
+				e.rec.Violate("C13", "dkg-record-not-whole", facts, "node %s crashed %s: the database's latest state says epoch %d is complete, its completed record is still epoch %d", n.addr, e.crashKind, cur.Epoch, fin.Epoch)
+			}
+		} else if cur, cerr := ds.GetCurrent(id); cerr == nil && cur != nil && cur.State == dkg.Complete {
+			e.rec.Violate("C13", "dkg-record-not-whole", facts, "node %s crashed %s: the database's latest state says epoch %d is complete, but it holds no completed record", n.addr, e.crashKind, cur.Epoch)
 		} else if g != nil && gerr == nil {
 			e.rec.Violate("C13", "files-ahead-of-dkg-record", facts, "node %s crashed %s: a group file exists but the database records no completed epoch", n.addr, e.crashKind)
 		}
